@@ -452,6 +452,8 @@ class Interp:
             # a method of the repo's own classes (also one inherited by a model stand-in, and classmethods): interpreted
             return self.call_function(f.__func__, [f.__self__] + list(args), kw, br)
         if is_model(getattr(f, '__self__', None)):
+            if getattr(f, '__needs_br__', False):
+                return f(self, br, *args, **kw)      # a model method that forks / assumes
             r = f(*args, **kw)
             return r
         if hasattr(f, '__kt_model__'):
